@@ -920,6 +920,43 @@ impl Check for StakingCheck {
         let max_ops = if self.tier.is_thorough() { 90 } else { 60 };
         let n = 1 + g.below(max_ops);
         let mut ops = vec![];
+        let mut unbonding_time = unbonding_time;
+        // scenario templates: shapes that random operations reach only rarely; random operations follow
+        match g.weighted(&[12, 2, 2]) {
+            1 => {
+                // a slash leaves the only delegator a sub-token remainder on a validator whose whole-token
+                // total is zero; time passes while the remainder is still there; a newcomer delegates
+                unbonding_time = 1_000_000;
+                let v = g.below(nval) as u8;
+                let odd = 2 * g.range(1, 500) + 1;
+                ops.push(SOp::Delegate(0, v, SAmt::Exact(odd), false));
+                if g.bool() {
+                    ops.push(SOp::Advance(g.range(1, 100_000)));
+                }
+                ops.push(SOp::Slash(v, PSpec::Half));
+                ops.push(SOp::Undelegate(0, v, SAmt::All, false));
+                ops.push(SOp::Advance(g.range(1000, 900_000)));
+                ops.push(SOp::Delegate(1, v, gen_amt(g), false));
+                ops.push(SOp::Advance(g.range(1, 1_000_000)));
+                ops.push(SOp::Withdraw(1, v));
+            }
+            2 => {
+                // several unbondings from several validators queued behind each other, one of them slashed to zero
+                let v = g.below(nval) as u8;
+                let w = (v + 1) % nval as u8;
+                ops.push(SOp::Delegate(0, v, SAmt::Half, false));
+                ops.push(SOp::Delegate(1, w, SAmt::Half, false));
+                ops.push(SOp::Delegate(2, v, SAmt::Half, false));
+                ops.push(SOp::Undelegate(0, v, SAmt::One, false));
+                ops.push(SOp::Advance(g.range(0, 5)));
+                ops.push(SOp::Undelegate(1, w, gen_amt(g), false));
+                ops.push(SOp::Undelegate(0, v, SAmt::One, false));
+                ops.push(SOp::Slash(v, if g.bool() { PSpec::One } else { PSpec::Half }));
+                ops.push(SOp::Undelegate(2, v, SAmt::Half, false));
+                ops.push(SOp::Advance(unbonding_time));
+            }
+            _ => {}
+        }
         if slash_heavy && g.chance(2, 3) {
             // warm-up: several delegators per validator and pending unbondings from several validators
             for d in 0..N_DELEGATORS as u8 {
